@@ -122,3 +122,110 @@ def t_ancestor_is_parent(repo, specs, r):
         ctx.oblige("IS_ANCESTOR(c,x) <=> PARENT_ID(x, res c)==id(c)", anc == zbool(ops.compare("==", p, cid)), None, "lemma")
         return inputs
     return fn
+
+
+# ------------------------------------------------------------------------------------------------ ordering (C09)
+COMPACT = "a5.core.compact.compact"
+
+
+def sort_key_function(repo):
+    """The key the code sorts its working list by: qualified name of the `key=` function of the sorted(...) call in
+    compact, or None for plain numeric order.  Re-read from the source on every run."""
+    import ast
+    mod, fnode, _ = repo.function(COMPACT)
+    for n in ast.walk(fnode):
+        if isinstance(n, ast.Call) and isinstance(n.func, ast.Name) and n.func.id == "sorted":
+            for kw in n.keywords:
+                if kw.arg == "key":
+                    if isinstance(kw.value, ast.Name) and kw.value.id in mod.functions:
+                        return mod.name + "." + kw.value.id
+                    return "<unsupported key expression>"
+            return None
+    return "<no sorted() call>"
+
+
+def key_of(it, repo, idv):
+    kf = sort_key_function(repo)
+    if kf is None:
+        return idv
+    return it.call(kf, idv)
+
+
+def rel(it, a, b):
+    A = CARGS.replace("c[", "a[")
+    Bq = CARGS.replace("c[", "b[")
+    return it.eval_formula("IS_ANCESTOR(%s, %s) or IS_ANCESTOR(%s, %s)" % (A, Bq, Bq, A), {"a": a, "b": b})
+
+
+def mk_modular(ctx, repo, specs):
+    """Interpreter that uses get_resolution through its contract (argument levels are symbolic here)."""
+    it = c06.mk(ctx, repo, specs)
+    it.by_contract = set(it.by_contract) | {"a5.core.serialization.get_resolution"}
+    return it
+
+
+def t_resof(repo, specs, r):
+    """Specification lemma tying the functional RESOF to the layout: RESOF(ENC(cell)) == cell.resolution."""
+    def fn(ctx):
+        it = mk(ctx, repo, specs)
+        c, inputs = sym_valid(it, ctx, "c", r)
+        cid = it.eval_spec("ENC_CELL(c)", None, {"c": c})
+        ctx.oblige("RESOF(ENC(cell))==cell.resolution", zbool(it.ops.compare("==", it.eval_logical("RESOF(x)", {"x": cid}), r)), None, "lemma")
+        return inputs
+    return fn
+
+
+def t_order(repo, specs, r):
+    """order / transfer / adjacency for the sibling group of a first child c of level r and an arbitrary valid cell y
+    that is unrelated to every sibling, under the key the code sorts by."""
+    def fn(ctx):
+        it = mk_modular(ctx, repo, specs)
+        ops = it.ops
+        c, inputs = sym_valid(it, ctx, "c", r)
+        y, in2 = sym_valid(it, ctx, "y", None, rmin=-1)
+        inputs.update(in2)
+        ctx.assume(it.spec_bool("FIRSTSPEC(%s)" % CARGS, {"c": c}))
+        sibs = sibling_cells(it, ctx, c, r)
+        par = parent_cell(it, c, r)
+        if r == 0:
+            # the group is all twelve faces: every valid cell other than the world cell lies under one of them, so
+            # no cell is unrelated to the whole group and a complete group of faces is the entire antichain
+            ctx.oblige("level-0: every valid cell is related to one of the twelve faces", zor(*[rel(it, sc, y) for sc in sibs]), None, "lemma")
+            skeys = [key_of(it, repo, it.eval_spec("ENC_CELL(c)", None, {"c": sc})) for sc in sibs]
+            for j in range(len(sibs) - 1):
+                ctx.oblige("siblings-in-key-order-%d" % j, zbool(ops.compare("<", skeys[j], skeys[j + 1])), None, "lemma")
+            return inputs
+        for sc in sibs:
+            ctx.assume(znot(rel(it, sc, y)))
+        yid = it.eval_logical("ENC_CELL(c)", {"c": y})
+        ky = key_of(it, repo, yid)
+        skeys = [key_of(it, repo, it.eval_spec("ENC_CELL(c)", None, {"c": sc})) for sc in sibs]
+        ctx.oblige("transfer: unrelated to every sibling => unrelated to the parent", znot(rel(it, par, y)), None, "lemma")
+        for j in range(len(sibs) - 1):
+            ctx.oblige("siblings-in-key-order-%d" % j, zbool(ops.compare("<", skeys[j], skeys[j + 1])), None, "lemma")
+            ctx.oblige("adjacency: no unrelated cell sorts between siblings %d and %d" % (j, j + 1),
+                       znot(zand(zbool(ops.compare("<", skeys[j], ky)), zbool(ops.compare("<", ky, skeys[j + 1])))), None, "lemma")
+        if r >= 1:
+            pk = key_of(it, repo, it.eval_spec("ENC_CELL(c)", None, {"c": par}))
+            ctx.oblige("order: below the group => below the parent", z3.Implies(zbool(ops.compare("<", ky, skeys[0])), zbool(ops.compare("<", ky, pk))), None, "lemma")
+            ctx.oblige("order: above the group => above the parent", z3.Implies(zbool(ops.compare(">", ky, skeys[-1])), zbool(ops.compare(">", ky, pk))), None, "lemma")
+        ctx.cover("order lemma hypotheses")
+        return inputs
+    return fn
+
+
+def t_key_injective(repo, specs, r):
+    """Distinct valid cells have distinct sort keys (so a strictly key-increasing list has no duplicates and
+    sorted(set(.), key) is well defined)."""
+    def fn(ctx):
+        it = mk_modular(ctx, repo, specs)
+        ops = it.ops
+        a, inputs = sym_valid(it, ctx, "a", r)
+        b, in2 = sym_valid(it, ctx, "b", None, rmin=-1)
+        inputs.update(in2)
+        ctx.assume(znot(it.eval_formula("CELLEQ(a, b)", {"a": a, "b": b})))
+        ka = key_of(it, repo, it.eval_spec("ENC_CELL(c)", None, {"c": a}))
+        kb = key_of(it, repo, it.eval_logical("ENC_CELL(c)", {"c": b}))
+        ctx.oblige("key-injective: distinct cells have distinct sort keys", znot(zbool(ops.compare("==", ka, kb))), None, "lemma")
+        return inputs
+    return fn
